@@ -228,7 +228,10 @@ fn check_api(ctx: &mut Ctx, a: &Ast, text: &str, perm: &[usize], with_unused: bo
     let mut slot = 0;
     for (j, p) in perm.iter().enumerate() {
         if with_unused && j == perm.len() / 2 {
-            ordering.push(sym("unused", ids[slot]));
+            // an unused symbol; for odd permutations it is spelled like a keyword of the language
+            // (a name the formula text can never refer to as a variable)
+            let name = if perm.first().copied().unwrap_or(0) % 2 == 1 { ["true", "in", "exists", "eq"][perm.len() % 4] } else { "unused" };
+            ordering.push(sym(name, ids[slot]));
             slot += 1;
         }
         ordering.push(sym(&exp.names[*p], ids[slot]));
@@ -354,6 +357,46 @@ fn run(ctx: &mut Ctx) {
                     ctx.count("api_cases", 1);
                 }
             }
+        }
+    }
+    // names that need care in an ordering file: primes, underscores, digits, non-ASCII letters
+    {
+        let rename = |a: &Ast| -> Ast {
+            fn go(a: &Ast) -> Ast {
+                let r = |n: &String| match n.as_str() {
+                    "a" => "x'".to_string(),
+                    "b" => "b_1".to_string(),
+                    "c" => "\u{e9}2".to_string(),
+                    o => o.to_string(),
+                };
+                match a {
+                    Ast::Var(v) => Ast::Var(r(v)),
+                    Ast::Not(x) => Ast::Not(Box::new(go(x))),
+                    Ast::Q(e, vs, b) => Ast::Q(*e, vs.iter().map(r).collect(), Box::new(go(b))),
+                    Ast::Fp(x, g, b) => Ast::Fp(x.clone(), *g, Box::new(go(b))),
+                    Ast::CC(o, l, n) => Ast::CC(*o, l.iter().map(go).collect(), n.clone()),
+                    Ast::CV(o, l, rr) => Ast::CV(*o, l.iter().map(go).collect(), rr.iter().map(go).collect()),
+                    Ast::Ite(c, t, e) => Ast::Ite(Box::new(go(c)), Box::new(go(t)), Box::new(go(e))),
+                    Ast::Bin(o, l, rr) => Ast::Bin(*o, Box::new(go(l)), Box::new(go(rr))),
+                    o => o.clone(),
+                }
+            }
+            go(a)
+        };
+        for (a, names, _) in set.iter().filter(|(a, n, _)| a.size() <= 3 && n.len() >= 2 && n.len() <= 3).step_by(7) {
+            let ra = rename(a);
+            let text = refl::pp(&ra, refl::MINIMAL);
+            for (o, core) in ordering_family(&ra.names(), false) {
+                if !core {
+                    continue;
+                }
+                idx += 1;
+                if ctx.mine(idx) {
+                    check_cli(ctx, &ra, &text, &o, true);
+                    ctx.count("cli_cases", 1);
+                }
+            }
+            let _ = names;
         }
     }
     // formulas with five and six variables under four orderings, full observation set
